@@ -6,20 +6,21 @@ From ApiFu Require Import Base.Sexp Vld.Ast Vld.Inspect Vld.Decode Vld.TypeInfoM
 Import ListNotations.
 Local Open Scope string_scope.
 
-Inductive run := RAccept | RReject (errs : list (list pos)) | RPanic.
+Inductive run := RAccept | RReject (errs : list (list pos)) | RPanic | RCrash.
 
 Definition dec_run (s : sexp) : option run :=
   match untag s with
   | Some (t, args) =>
       if String.eqb t "accept" then Some RAccept
       else if String.eqb t "panic" then Some RPanic
+      else if String.eqb t "crash" then Some RCrash
       else if String.eqb t "reject" then
         match map_opt (as_list_of dec_pos) args with Some l => Some (RReject l) | None => None end
       else None
   | None => None
   end.
 
-Definition run_verdict (r : run) : N := match r with RAccept => 0 | RReject _ => 1 | RPanic => 2 end.
+Definition run_verdict (r : run) : N := match r with RAccept => 0 | RReject _ => 1 | RPanic => 2 | RCrash => 4 end.
 
 (** multiset of locations of a run, as a sorted list *)
 Definition pos_leb (a b : pos) : bool :=
@@ -113,7 +114,9 @@ Definition check (c : sexp) : sexp :=
               let nodes := all_node_positions D in
               let all_errs := flat_map (fun r => match r with RReject e => e | _ => [] end) (r0 :: runs) in
               (* ---- oracle: the implementation against the Spec ---- *)
-              if existsb (fun r => N.eqb (run_verdict r) 2) (r0 :: runs) then
+              if existsb (fun r => N.eqb (run_verdict r) 4) (r0 :: runs) then
+                v_oracle_fail "process-killed-or-hung" []
+              else if existsb (fun r => N.eqb (run_verdict r) 2) (r0 :: runs) then
                 v_oracle_fail "panic" []
               else if negb (forallb (fun r => N.eqb (run_verdict r) (run_verdict r0)) runs) then
                 v_oracle_fail "verdict-varies-between-runs" []
